@@ -184,7 +184,8 @@ func (e *composerEnv) svcJSON(s CEnt) map[string]interface{} {
 // them back as given.
 var uriTable = []string{
 	"https://unknown.example/",
-	"https://aka1.example/",
+	// (URIs 1 and 2 differ in letter case only - scheme, host, path and query: two URIs all the same)
+	"https://aka2.example/ZOë?Q=1",
 	"HTTPS://Aka2.Example/zoë?q=1",
 	"did:example:123456789abcdefghi#frag",
 	"https://aka4.example/a%20b/../c",
